@@ -63,6 +63,15 @@ class C04(DevProp):
                     return True
         return False
 
+    def perturb(self, case, res):
+        # falsify: State() reports a wrong semitone from the middle of the history on
+        n = len(res["steps"])
+        if n < 4:
+            return None
+        for st in res["steps"][n // 2:]:
+            st["state"]["semitone"] += 1
+        return res
+
     def gen(self, rng, tier):
         cases = []
         big = tier != "quick"
@@ -97,6 +106,15 @@ class C04(DevProp):
                         ev = tap(ACT[u]) * 2 + tap(16) + [k(ACT[first], 1), k(ACT[second], 1)] + tap(17) + \
                             [k(ACT[rel[0]], 0)] + tap(16) + [k(ACT[rel[1]], 0)] + tap(17) + tap(ACT[d]) + tap(16)
                         cases.append({"cfg": cfg, "abs": [], "events": ev, "tag": "pair"})
+        # two keys bound to the same step action, pressed overlapping and one after the other
+        for cmode in devgen.CMODES[:2]:
+            for a1 in ("octave_up", "octave_down", "semitone_up", "semitone_down", "channel_up", "channel_down", "mapping_up", "mapping_down"):
+                cfg = base_cfg(rng, cmode, [(60, 0), (30, 2)], {"octave": 1, "semitone": 1, "channel": 5, "mapping": 1})
+                cfg["actions"].append({"code": 88, "action": a1})
+                k1, k2 = ACT[a1], 88
+                ev = [k(k1, 1), k(k2, 1)] + tap(16) + [k(k1, 0)] + tap(17) + [k(k2, 0)] + tap(16) + tap(k1) + tap(k2) + tap(17) + \
+                    [k(k2, 1), k(k1, 1), k(k2, 0), k(k1, 0)] + tap(16)
+                cases.append({"cfg": cfg, "abs": [], "events": ev, "tag": "shared-action"})
         # defaults at extremes / all channel x offset pairs
         for ch in range(1, 17):
             cfg = base_cfg(rng, "off", [(60, off) for off in range(16)][: 8 if ch % 2 else 16][-8:], {"channel": ch, "velocity": rng.choice([1, 64, 127])})
